@@ -122,12 +122,12 @@ Fixpoint evqe_default (o : pyval) : result pyval :=
                  end;
       do mem <- match members with
                 | PNone => Ok PNone
-                | PDict kvs => do r <- each_key kvs; Ok (PList r)
+                | PDict kvs | PObj CQuasiDist (PDict kvs :: _) => do r <- each_key kvs; Ok (PList r)   (* .items(): a dict or a dict subclass *)
                 | _ => Err ModelScope
                 end;
       do mship <- match membership with
                   | PNone => Ok PNone
-                  | PDict kvs => do r <- each_val kvs; Ok (PList r)
+                  | PDict kvs | PObj CQuasiDist (PDict kvs :: _) => do r <- each_val kvs; Ok (PList r)
                   | _ => Err ModelScope
                   end;
       do inds <- match individuals with PTuple l | PList l => each l | _ => Err ModelScope end;
